@@ -26,10 +26,11 @@ from bumble import hci, utils
 # layout derivation
 # ----------------------------------------------------------------------------------------------
 class Slot:
-    __slots__ = ('kind', 'val', 'reps')
+    __slots__ = ('kind', 'val', 'reps', 'mul', 'top')
 
-    def __init__(self, kind, val=None, reps=None):
+    def __init__(self, kind, val=None, reps=None, mul=1, top=255):
         self.kind, self.val, self.reps = kind, val, reps   # 'sym' | 'const' | 'reps' (reps: list of byte tuples)
+        self.mul, self.top = mul, top                      # sym byte = mul * x with 0 <= x <= top (reserved low bits zero)
 
 
 def enum_reps(cls, size: int, byteorder: str) -> List[Tuple[int, ...]]:
@@ -117,9 +118,44 @@ def field_slots(spec, shape: List[int], prev: List[Slot]) -> List[Slot]:
         if qn.endswith('parse_length_prefixed_bytes'):
             n = shape.pop(0)
             return [Slot('const', n)] + [Slot('sym') for _ in range(n)]
-        n = _probe_size(spec)
+        if qn == 'UUID.parse_uuid':
+            return [Slot('sym') for _ in range(shape.pop(0))]
+        if is_rest_parser(spec):
+            return [Slot('sym') for _ in range(shape.pop(0))]
+        try:
+            n = _probe_size(spec)
+        except Exception as e:
+            raise NotImplementedError(f'cannot probe field parser {qn}: {e!r}')
         return [Slot('sym') for _ in range(n)]
     raise NotImplementedError(f'field spec {spec!r}')
+
+
+_REST_CACHE: Dict[int, bool] = {}
+
+
+def is_rest_parser(parser) -> bool:
+    """a field parser that consumes the rest of the PDU (returns new offset == len(data)) for two buffer sizes"""
+    k = id(parser)
+    if k not in _REST_CACHE:
+        try:
+            _REST_CACHE[k] = parser(bytes(8), 2)[0] == 8 and parser(bytes(12), 2)[0] == 12
+        except Exception:
+            _REST_CACHE[k] = False
+    return _REST_CACHE[k]
+
+
+def rest_lengths(spec_dict) -> List[int]:
+    """lengths 0..6 of an all-zero tail that the parser/serializer pair reproduces (item granularity of list parsers)"""
+    parser, ser = spec_dict.get('parser'), spec_dict.get('serializer')
+    out = []
+    for n in range(0, 7):
+        try:
+            v = parser(bytes(2 + n), 2)[1]
+            if ser is None or bytes(ser(v)) == bytes(n):
+                out.append(n)
+        except Exception:
+            pass
+    return out
 
 
 def nested_fields(spec):
@@ -137,7 +173,8 @@ def is_variable(spec) -> bool:
         return 'parser' in spec and is_variable(spec['parser'])
     if spec in ('*', 'v'):
         return True
-    return callable(spec) and getattr(spec, '__qualname__', '').endswith('parse_length_prefixed_bytes')
+    qn = getattr(spec, '__qualname__', '') if callable(spec) else ''
+    return qn.endswith('parse_length_prefixed_bytes') or qn == 'UUID.parse_uuid' or (callable(spec) and is_rest_parser(spec))
 
 
 def count_variables(fields) -> List[str]:
@@ -158,13 +195,21 @@ def _vars_of(spec) -> List[str]:
     sub = nested_fields(spec) if callable(spec) else None
     if sub is not None:
         return count_variables(sub)
+    if callable(spec) and getattr(spec, '__qualname__', '') == 'UUID.parse_uuid':
+        return ['u']
+    if isinstance(spec, dict) and 'size' not in spec and callable(spec.get('parser')) and is_rest_parser(spec['parser']):
+        return [('r', tuple(rest_lengths(spec)))]
     return ['l'] if is_variable(spec) else []
+
+
+_OVERRIDE = [None]     # family hook: (field_name, spec, shape) -> slots or None
 
 
 def layout(fields, shape: List[int], consume: bool = False) -> List[Slot]:
     if not consume:
         shape = list(shape)
     slots: List[Slot] = []
+    ov = _OVERRIDE[0]
     for f in fields:
         if isinstance(f, list):
             n = shape.pop(0)
@@ -176,7 +221,8 @@ def layout(fields, shape: List[int], consume: bool = False) -> List[Slot]:
                 for _, spec in f:
                     slots.extend(field_slots(spec, ls, slots))
         else:
-            slots.extend(field_slots(f[1], shape, slots))
+            o = ov(f[0], f[1], shape) if ov else None
+            slots.extend(o if o is not None else field_slots(f[1], shape, slots))
     return slots
 
 
@@ -195,11 +241,17 @@ def shapes_for(fields, tier: str) -> List[List[int]]:
     if not kinds:
         return [[]]
     if tier == 'quick':
-        choices = {'n': [1, 0], 'l': [1, 0]}
-        combos = [[choices[k][0] for k in kinds], [choices[k][1] for k in kinds]]
+        choices = {'n': [1, 0], 'l': [1, 0], 'u': [2, 16]}
+
+        def pick(k, i):
+            if isinstance(k, tuple):
+                nz = [v for v in k[1] if v] or [0]
+                return nz[0] if i == 0 else (0 if 0 in k[1] else nz[-1])
+            return choices[k][i]
+        combos = [[pick(k, 0) for k in kinds], [pick(k, 1) for k in kinds]]
     else:
-        choices = {'n': [0, 1, 2], 'l': [0, 2, 3]}
-        combos = [list(c) for c in itertools.product(*[choices[k] for k in kinds])]
+        choices = {'n': [0, 1, 2], 'l': [0, 2, 3], 'u': [2, 16]}
+        combos = [list(c) for c in itertools.product(*[(list(k[1])[:4] if isinstance(k, tuple) else choices[k]) for k in kinds])]
         if len(combos) > 9:
             combos = combos[:: max(1, len(combos) // 9)][:9]
     out = []
@@ -230,6 +282,9 @@ def veq(a, b) -> bool:
 # ----------------------------------------------------------------------------------------------
 class Family:
     name = ''
+
+    def override(self, field_name, spec, shape):
+        return None
 
     def classes(self) -> Dict[Any, type]:
         raise NotImplementedError
@@ -320,7 +375,8 @@ class Att(Family):
 
     def classes(self):
         from bumble import att
-        return dict(att.ATT_PDU.pdu_classes)
+        # classes that re-parse a raw field in __post_init__ have value-dependent layouts: hand-written in c18.py
+        return {int(k): c for k, c in att.ATT_PDU.pdu_classes.items() if '__post_init__' not in c.__dict__}
 
     def wrap(self, key, params):
         return bytes([key]) + params
@@ -366,8 +422,42 @@ class L2capSig(Family):
     def build(self, cls, vals, parsed):
         return cls(identifier=parsed.identifier, **vals)
 
+    def override(self, field_name, spec, shape):
+        if field_name == 'psm':
+            # variable-length PSM: octets continue while the previous one is odd; two-octet form = second octet even
+            return [Slot('sym'), Slot('sym', mul=2, top=127)]
+        return None
 
-FAMILIES: Dict[str, Family] = {f.name: f for f in (HciCmd(), HciEvt(), HciLe(), HciCc(), Att(), Smp(), L2capSig())}
+
+class Avdtp(Family):
+    name = 'avdtp'
+    kernels = ('bumble.avdtp.Message.create', 'bumble.avdtp.Message.payload', 'bumble.hci.HCI_Object.dict_and_offset_from_bytes', 'bumble.hci.HCI_Object.dict_to_bytes')
+
+    def classes(self):
+        from bumble import avdtp
+        return {(int(sig), int(mt)): c for sig, d in avdtp.Message.subclasses.items() for mt, c in d.items()}
+
+    def wrap(self, key, params):
+        return bytes(params)
+
+    def parse(self, data):
+        raise NotImplementedError
+
+    def label(self, key, cls):
+        return cls.__name__
+
+    def override(self, field_name, spec, shape):
+        # AVDTP SEIDs occupy the six most significant bits of their octet, the two low bits are RFA
+        if field_name == 'capabilities':
+            raise NotImplementedError('AVDTP capability lists have value-dependent layouts: hand-written in c18.py')
+        if field_name.endswith('_seids'):
+            return [Slot('sym', mul=4, top=63) for _ in range(shape.pop(0))]
+        if field_name.endswith('_seid'):
+            return [Slot('sym', mul=4, top=63)]
+        return None
+
+
+FAMILIES: Dict[str, Family] = {f.name: f for f in (HciCmd(), HciEvt(), HciLe(), HciCc(), Att(), Smp(), L2capSig(), Avdtp())}
 
 
 # ----------------------------------------------------------------------------------------------
@@ -378,8 +468,10 @@ def roundtrip(fam: str, key, params: List[int]) -> bool:
     bytes identical, class identical, every field equal."""
     f = FAMILIES[fam]
     cls = f.classes()[key]
+    from bumble import core as _core
+    del _core.UUID.UUIDS[8:]       # keep the process-wide UUID registry small (history is checked separately in C18)
     data = f.wrap(key, bytes(params))
-    p1 = f.parse(data)
+    p1 = f.parse(data) if fam != 'avdtp' else None
     if fam == 'hcicc':
         if type(p1) is not hci.HCI_Command_Complete_Event or p1.command_opcode != key:
             return False
@@ -405,6 +497,19 @@ def roundtrip(fam: str, key, params: List[int]) -> bool:
             return False
         p3 = f.parse(b2)
         return type(p3.return_parameters) is type(rp1) and all(veq(getattr(p3.return_parameters, n), vals[n]) for n in names)
+    if fam == 'avdtp':
+        from bumble import avdtp
+        sig, mt = avdtp.SignalIdentifier(key[0]), avdtp.Message.MessageType(key[1])
+        p1 = avdtp.Message.create(sig, mt, data)
+        if type(p1) is not cls or p1.payload != data:
+            return False
+        names = flat_names(cls.fields)
+        vals = {n: getattr(p1, n) for n in names}
+        p2 = cls(**vals)
+        if p2.payload != data or p2.signal_identifier != sig or p2.message_type != mt:
+            return False
+        p3 = avdtp.Message.create(sig, mt, p2.payload)
+        return type(p3) is cls and all(veq(getattr(p3, n), vals[n]) for n in names)
     if type(p1) is not cls:
         return False
     if bytes(p1) != data:
@@ -422,14 +527,36 @@ def roundtrip(fam: str, key, params: List[int]) -> bool:
 # ----------------------------------------------------------------------------------------------
 # condition generation
 # ----------------------------------------------------------------------------------------------
+def thin_reps(slots: List[Slot], tier: str) -> List[Slot]:
+    """bound the product of representative tuples: <= ~48 combinations in the quick tier, <= ~600 in the thorough tier"""
+    limit = 48 if tier == 'quick' else 600
+    reps = [s for s in slots if s.kind == 'reps']
+    k = max((len(s.reps) for s in reps), default=0)
+    while k > 2:
+        prod = 1
+        for s in reps:
+            prod *= min(len(s.reps), k)
+        if prod <= limit:
+            break
+        k -= 1
+    out = []
+    for s in slots:
+        if s.kind == 'reps' and len(s.reps) > k:
+            keep = [s.reps[0]] + list(s.reps[-(k - 1):]) if k > 1 else [s.reps[0]]
+            out.append(Slot('reps', reps=keep))
+        else:
+            out.append(s)
+    return out
+
+
 def make_fn(name: str, fam: str, key, slots: List[Slot]):
     """emit and exec the harness function for one (class, shape)"""
     params, pre, body, items = [], [], [], []
     for i, s in enumerate(slots):
         if s.kind == 'sym':
             params.append(f'x{i}: int')
-            pre.append(f'0 <= x{i} <= 255')
-            items.append(f'[x{i}]')
+            pre.append(f'0 <= x{i} <= {s.top}')
+            items.append(f'[x{i}]' if s.mul == 1 else f'[x{i} * {s.mul}]')
         elif s.kind == 'const':
             items.append(f'[{s.val}]')
         else:
@@ -463,6 +590,7 @@ def conditions(families: List[str], timeout=(15.0, 60.0)) -> List[Cond]:
         f = FAMILIES[fam]
         for key, cls in sorted(f.classes().items()):
             fields = f.fields(cls)
+            _OVERRIDE[0] = f.override
             for tier in ('quick', 'thorough'):
                 for shape in shapes_for(fields, tier):
                     try:
@@ -473,6 +601,11 @@ def conditions(families: List[str], timeout=(15.0, 60.0)) -> List[Cond]:
                     if len(slots) > 250:   # does not fit an HCI parameter block
                         continue
                     tag = 's' + '_'.join(map(str, shape)) if shape else 's'
+                    thin_q, thin_t = thin_reps(slots, 'quick'), thin_reps(slots, 'thorough')
+                    differs = [len(a.reps or ()) for a in thin_q] != [len(a.reps or ()) for a in thin_t]
+                    slots = thin_q if tier == 'quick' else thin_t
+                    if differs and tier == 'quick':
+                        tag += 'q'
                     name = f'{fam}_{f.label(key, cls)}_{tag}'
                     same = next((c for c in out if c.name == name), None)
                     if same is not None:
